@@ -12,6 +12,8 @@ From VerifGen Require K22.
 From VerifGen Require K21.
 From Verif Require Import UnionDispatch K43Proofs.
 From Verif Require Import UnionMember.
+From Verif Require Import ScalarCreators K43aProofs.
+From VerifGen Require Import K43a.
 From VerifGen Require Import K43.
 Import ListNotations.
 Open Scope string_scope.
@@ -507,6 +509,39 @@ Example C11_deep_encode_nonvacuous :
   qenc t (UDict [(UStr "k", UTuple [UInt 5; d])]) = Some (UDict [(UStr "k", UList [UInt 5; UStr "2020-01-01"])]) /\
   qenc t (UDict [(UStr "k", UTuple [UFloat None "1.5"; UNone])]) = None.
 Proof. cbv zeta. repeat split; reflexivity. Qed.
+
+(* ---------- K43a: which members are the "basic scalar members" ---------- *)
+(* the creators unpack_any / unpack_number / unpack_bool / unpack_none, the str branch of unpack_collection and
+   their pack counterparts are re-translated from /repo on every run (oty: the origin type they test) *)
+
+(* int / float / bool / str / NoneType get a TypeMatchEligibleExpression of their OWN coercion: the MS k of
+   union_dec (exact-type statement + coerce k as the fallback), no cross-coercion is ever emitted *)
+Theorem C11_scalar_members_tme : forall k, scalar_unpack (origin_of k) = Some (STme k).
+Proof. exact scalar_members_tme. Qed.
+Print Assumptions C11_scalar_members_tme.
+
+(* their packer is the expression "value": the identity members of pack_union *)
+Theorem C11_scalar_members_identity_packer : forall k, scalar_pack (origin_of k) = Some SValue.
+Proof. exact scalar_members_identity_packer. Qed.
+Print Assumptions C11_scalar_members_identity_packer.
+
+Theorem C11_tme_only_scalars : forall o k, scalar_unpack o = Some (STme k) ->
+  o = origin_of k \/ (o = ONonePy /\ k = KNone) \/ (o = OStr true /\ k = KStr).
+Proof. exact tme_only_scalars. Qed.
+Print Assumptions C11_tme_only_scalars.
+
+(* at most one of the five creators answers for a type (bool is not a number here), so their order is irrelevant *)
+Theorem C11_scalar_creators_exclusive : forall o,
+  (fold_right Nat.add 0 (map (fun f => match f o with Some _ => 1 | None => 0 end)
+                             [unpack_any; unpack_number; unpack_bool; unpack_none; unpack_str]) <= 1)%nat.
+Proof. exact creators_exclusive. Qed.
+Print Assumptions C11_scalar_creators_exclusive.
+
+(* the member that K19's emission loop sees for a basic scalar type is SM k, i.e. MS k of the model *)
+Theorem C11_scalar_type_is_scalar_member : forall k e dec,
+  mspec_of (origin_of k) e dec = SM k /\ to_member (mspec_of (origin_of k) e dec) = MS k /\ is_tme (mspec_of (origin_of k) e dec) = true.
+Proof. exact scalar_type_is_scalar_member. Qed.
+Print Assumptions C11_scalar_type_is_scalar_member.
 
 (* ---------- serialization of member VALUES: typing membership inside the model ---------- *)
 (* rty = pty whose leaves carry their membership; rconf r v: v is a value of type r (Optional: None or the
